@@ -236,13 +236,16 @@ def conditionals_native(vc):
     seed = vc.int("seed", lo=0, hi=10 ** 6)
     r = np.random.default_rng(seed)
     d = vc.int("d", lo=1, hi=3)
-    kind = vc.choice("posterior", ["gauss", "corr", "skew", "student", "scaled", "offset"])
+    kind = vc.choice("posterior", ["gauss", "corr", "skew", "student", "scaled", "offset", "narrow_far", "narrow_far"])
     mu = r.normal(size=d)
     sc = 10 ** r.uniform(-1, 1, size=d)
     if kind == "scaled":
         sc = sc * np.array([1e-3, 1e3, 1.0])[:d]
     if kind == "offset":
         mu = mu + 1e3
+    if kind == "narrow_far":          # widths of 1e-9 .. 1e-7 of the location: far below any tolerance relative to the coordinate
+        mu = r.uniform(100.0, 1000.0, size=d)
+        sc = mu * 10 ** r.uniform(-9, -8.5, size=d)
     A = np.eye(d)
     if kind == "corr" and d > 1:
         M = r.normal(size=(d, d))
@@ -262,6 +265,8 @@ def conditionals_native(vc):
         return float(-0.5 * z @ A @ z)
 
     wide = vc.choice("bounds_width_in_scales", [3.0, 30.0, 3e3, 1e5])      # (a conditional may be very narrow relative to the box)
+    if kind == "narrow_far":
+        wide = 1e5            # (the box is also enormous relative to the conditional: the search grid alone never sees the peak)
     w = wide * sc
     bounds = [(float(mu[i] - w[i] * r.uniform(0.5, 1)), float(mu[i] + w[i] * r.uniform(0.5, 1))) for i in range(d)]
     point = mu + 0.2 * sc * r.normal(size=d)
